@@ -867,10 +867,13 @@ impl TcpSession {
 
         if self.front_readiness().event.is_hup() {
             let session_result = self.front_hup();
-            if session_result == SessionResult::Continue {
-                self.front_readiness().event.remove(Ready::HUP);
+            if session_result != SessionResult::Continue {
+                return session_result;
             }
-            return session_result;
+            // the pipe still has bytes of the client to read or forward: run the
+            // handlers below (returning here would wait for an event that an
+            // edge-triggered poll never delivers again)
+            self.front_readiness().event.remove(Ready::HUP);
         }
 
         while counter < MAX_LOOP_ITERATIONS {
